@@ -298,6 +298,9 @@ func (fr *Frame) staticCall(st *State, g string, site ssa.Instruction, callee *s
 	fr.callSiteAsserts(st, g, cname, false, args, callee, pos)
 	defer func() {}()
 	fc := eng.contractFor(callee)
+	if fc == nil {
+		fc = eng.lookupExtern(cname, "extern")
+	}
 	var st2 *State
 	var res []string
 	switch {
@@ -355,7 +358,11 @@ func (fr *Frame) inline(st *State, g string, callee *ssa.Function, args []string
 			}
 		}
 	}
-	vc.note("inlined %s into %s", canonFunc(callee), fr.top().fn.String())
+	if tf := fr.top().fn; tf != nil {
+		vc.note("inlined %s into %s", canonFunc(callee), tf.String())
+	} else {
+		vc.note("inlined %s", canonFunc(callee))
+	}
 	sub.run(st, g)
 	if len(sub.rets) == 0 {
 		// never returns (panics): results unconstrained
@@ -391,6 +398,10 @@ func (fr *Frame) inline(st *State, g string, callee *ssa.Function, args []string
 func (fr *Frame) unknownCall(st *State, g string, name string, argVals []ssa.Value, args []string, sig *types.Signature, havocAll bool) (*State, []string) {
 	vc := fr.vc
 	if havocAll {
+		if t := fr.top(); t.fc != nil && t.fc.Kind == "func" && !t.modifiesAll() {
+			vc.addObl(&Obligation{Name: fmt.Sprintf("%s#frame.heap@%s", vc.unit, sanitize(name)), Kind: "frame", Props: t.props(), Guard: g, Goal: "false",
+				Src: "call to " + name + " which has no contract (all heaps havoc'ed) is reachable, but the contract has no `modifies heap`/`modifies all`"})
+		}
 		vc.note("call to %s without contract: all heaps havoc'ed, results unconstrained", name)
 		fr.recordHavocAll(true, false)
 		st = st.havoc(vc.fresh("call"), nil, true, false)
@@ -523,7 +534,7 @@ func (fr *Frame) applyAssumed(st *State, g string, fc *FuncContract, name string
 	}
 	fr.top().callSeq[fc.Name]++
 	for k, c := range fc.Requires {
-		t := fr.evalClause(c, env, "requires of "+fc.Name)
+		t := fr.evalGoal(c, env, "requires of "+fc.Name)
 		label := c.Label
 		if label == "" {
 			label = fmt.Sprint(k)
@@ -742,7 +753,7 @@ func (fr *Frame) applyContract(st *State, g string, fc *FuncContract, callee *ss
 	fr.top().callSeq[fc.Name]++
 	seq := fr.top().callSeq[fc.Name]
 	for k, c := range fc.Requires {
-		t := fr.evalClause(c, env, "requires of "+fc.Name)
+		t := fr.evalGoal(c, env, "requires of "+fc.Name)
 		label := c.Label
 		if label == "" {
 			label = fmt.Sprint(k)
@@ -860,7 +871,7 @@ func (fr *Frame) callSiteAsserts(st *State, g string, cname string, after bool, 
 				env.names["arg"+fmt.Sprint(i)] = TV{term: args[i], typ: p.Type()}
 			}
 		}
-		tt := t.evalClause(a.C, env, "call-site assertion")
+		tt := t.evalGoal(a.C, env, "call-site assertion")
 		label := a.C.Label
 		if label == "" {
 			label = fmt.Sprint(k)
@@ -896,7 +907,7 @@ func (fr *Frame) callSiteAssertsAfter(st *State, g string, cname string, args, r
 		for i := range res {
 			env.names["ret"+fmt.Sprint(i)] = TV{term: res[i], typ: callee.Signature.Results().At(i).Type()}
 		}
-		tt := t.evalClause(a.C, env, "call-site assertion")
+		tt := t.evalGoal(a.C, env, "call-site assertion")
 		label := a.C.Label
 		if label == "" {
 			label = fmt.Sprint(k)
@@ -1058,4 +1069,16 @@ func (fr *Frame) appendBuiltin(st *State, g string, c *ssa.CallCommon, pos token
 	r := vc.freshConst("app", "Slice")
 	vc.assume(eq(r, res))
 	return st, []string{r}
+}
+
+func (fr *Frame) modifiesAll() bool {
+	if fr.fc == nil {
+		return true
+	}
+	for _, m := range fr.fc.Modifies {
+		if m == "all" || m == "heap" {
+			return true
+		}
+	}
+	return false
 }
